@@ -94,6 +94,24 @@ pub fn scenario(prop: &str) -> Scenario {
             s.max_machines = 3;
             s.fw_fracs = false;
         }
+        "C08" => {
+            s.mp.counters = 75;
+            s.mp.big_counters = true;
+            s.mp.limits = 15;
+            s.mp.signals = 5;
+            s.mp.ends = 5;
+            s.mp.trans_density = 60;
+            s.mp.max_states = 3;
+            s.mp.prob = ProbMode::Dyadic;
+            s.mp.budgets = false;
+            s.mp.fracs = false;
+            s.hp.min_events = 1;
+            s.hp.max_events = 3;
+            s.hp.max_calls = 10;
+            s.min_machines = 1;
+            s.max_machines = 3;
+            s.fw_fracs = false;
+        }
         "C09" => {
             s.mp.signals = 70;
             s.mp.ends = 8;
@@ -166,6 +184,7 @@ pub fn monitor(prop: &str, c: &FwCase, run: &FwRun) -> Option<String> {
         "C03" => mon_c03(c, run),
         "C09" => mon_c09(c, run),
         "C07" => mon_c07(c, run),
+        "C08" => mon_c08(c, run),
         _ => None,
     }
 }
@@ -201,6 +220,7 @@ pub fn nontrivial(prop: &str, c: &FwCase, run: &FwRun) -> bool {
             run.calls.iter().any(|c| c.actions.iter().any(|a| matches!(a, TriggerAction::SendPadding { .. })))
                 && c.machines.iter().any(|m| m.max_padding_frac > 0.0 || m.allowed_padding_packets > 0) 
         }
+        "C08" => run.calls.iter().any(|c| c.log.iter().any(|e| e.0 == maybenot::verif::LOG_CZERO)),
         "C07" => run.calls.iter().any(|c| c.log.iter().any(|e| e.0 == maybenot::verif::LOG_DEC)),
         "C09" => run.calls.iter().any(|c| c.log.iter().any(|e| e.0 == maybenot::verif::LOG_SIGSET)),
         "C03" => run
@@ -592,6 +612,41 @@ fn mon_c07(c: &FwCase, run: &FwRun) -> Option<String> {
                         }
                     }
                 }
+            }
+        }
+        prev = rec.snap.clone();
+    }
+    None
+}
+
+/// C08: CounterZero bookkeeping from snapshots and the internal log
+fn mon_c08(c: &FwCase, run: &FwRun) -> Option<String> {
+    use maybenot::constants::STATE_SIGNAL;
+    use maybenot::verif::{LOG_CZERO, LOG_NEXT};
+    let n = c.machines.len();
+    let mut prev = run.new_snap.clone()?;
+    for (j, rec) in run.calls.iter().enumerate() {
+        for i in 0..n {
+            let cz = rec.log.iter().filter(|e| e.0 == LOG_CZERO && e.1 == i as u64).count();
+            if cz > 2 {
+                return Some(format!("call {}: machine {} received CounterZero {} times in one call", j, i, cz));
+            }
+            let updates = rec
+                .log
+                .iter()
+                .filter(|e| e.0 == LOG_NEXT && e.1 == i as u64 && e.2 != STATE_END as u64 && e.2 != STATE_SIGNAL as u64)
+                .count();
+            let (b, a) = (&prev.machines[i], &rec.snap.machines[i]);
+            if updates == 1 && cz == 0 {
+                if (b.counter_a != 0 && a.counter_a == 0) || (b.counter_b != 0 && a.counter_b == 0) {
+                    return Some(format!(
+                        "call {}: a counter of machine {} went from non-zero to zero ((a,b) {:?} -> {:?}) but no CounterZero was raised for it",
+                        j, i, (b.counter_a, b.counter_b), (a.counter_a, a.counter_b)
+                    ));
+                }
+            }
+            if updates == 0 && (b.counter_a != a.counter_a || b.counter_b != a.counter_b) {
+                return Some(format!("call {}: counters of machine {} changed without a transition into a state", j, i));
             }
         }
         prev = rec.snap.clone();
